@@ -473,15 +473,22 @@ def sec_noise_models(ctx, rng, case):
         pos = int(rng.integers(max(0, len(steps) - 1), len(steps) + 1))
         # terminal for its wires: drop later steps on the measured wires
         steps = steps[:pos] + [{"t": "M", "key": "m", "w": tuple(measured)}] + [st for st in steps[pos:] if not (set(st["w"]) & set(measured))]
+    # device-derived form: the model is handed over through NoiseProperties / NoiseModelFromNoiseProperties, which tags every
+    # operation as physical itself and splits multi-qubit measurements into single-qubit ones while the noise is applied
+    device = bool(rng.random() < 0.25)
+    if device and measured and rng.random() < 0.5:
+        # (a repeated key keeps its shape: Cirq refuses records of different widths under one key)
+        w0 = tuple(int(w_) for w_ in rng.choice(n, size=len(measured), replace=False))
+        steps.insert(int(rng.integers(0, max(1, steps.index(next(st for st in steps if st["t"] == "M")) + 1))), {"t": "M", "key": "m", "w": w0})
     msteps = _group_moments(rng, steps)
     model_kind = "thermal" if rng.random() < 0.6 else "insertion"
-    require_tag = bool(rng.random() < 0.4)
+    require_tag = True if device else bool(rng.random() < 0.4)
     prepend = bool(rng.random() < 0.35)
-    physical = [bool(rng.random() < 0.7) for _ in msteps] if require_tag else [True] * len(msteps)
+    physical = [bool(rng.random() < 0.7) for _ in msteps] if (require_tag and not device) else [True] * len(msteps)
     moments = []
     for mi, m in enumerate(msteps):
         ops_ = [P.step_to_op(st, qubits) for st in m]
-        if require_tag and physical[mi]:
+        if require_tag and physical[mi] and not device:
             ops_ = [o.with_tags(PHYSICAL_GATE_TAG) for o in ops_]
         moments.append(cirq.Moment(ops_))
     circuit = cirq.Circuit(moments)
@@ -489,7 +496,7 @@ def sec_noise_models(ctx, rng, case):
     gtypes = [[type(P.step_to_op(st, qubits).gate) for st in m] for m in msteps]
     all_types = sorted({t for ts in gtypes for t in ts}, key=lambda t: t.__name__)
     wit = dict(program=[[P.describe([st])[0] for st in m] for m in msteps], model=model_kind, require_tag=require_tag, prepend=prepend,
-               physical=physical)
+               physical=physical, device_derived=device)
 
     if model_kind == "thermal":
         # exact types only, none a subclass of another key (sub-class matching order is not documented)
@@ -572,14 +579,17 @@ def sec_noise_models(ctx, rng, case):
         def noise_layer(m, ts, system):
             out = []
             for st, ty in zip(m, ts):
-                hit = None
-                for x in ids:  # dict order; the most specific wins, ties go to the first
-                    if not (issubclass(ty, x[0]) and (x[1] is None or tuple(x[1]) == tuple(st["w"]))):
-                        continue
-                    if hit is None or (contained(x, hit) and not contained(hit, x)):
-                        hit = x
-                if hit is not None:
-                    out.append(I.K(hit[2].ref(hit[3]), [hit[4]]))
+                # (device-derived models see a multi-qubit measurement as one single-qubit measurement per qubit)
+                units = [(w_,) for w_ in st["w"]] if (device and st["t"] == "M") else [tuple(st["w"])]
+                for uw in units:
+                    hit = None
+                    for x in ids:  # dict order; the most specific wins, ties go to the first
+                        if not (issubclass(ty, x[0]) and (x[1] is None or tuple(x[1]) == uw)):
+                            continue
+                        if hit is None or (contained(x, hit) and not contained(hit, x)):
+                            hit = x
+                    if hit is not None:
+                        out.append(I.K(hit[2].ref(hit[3]), [hit[4]]))
             return out
 
     def build_ref(ms, tss, phys, system):
@@ -591,6 +601,14 @@ def sec_noise_models(ctx, rng, case):
         return ref
 
     want = I.average_state(I.run(build_ref(msteps, gtypes, physical, present), dims))
+    if device:
+        from cirq.devices.noise_properties import NoiseModelFromNoiseProperties, NoiseProperties
+        inner_model = model
+
+        class _Props(NoiseProperties):
+            def build_noise_models(self):
+                return [inner_model]
+        model = NoiseModelFromNoiseProperties(_Props())
     # with_noise: system qubits = sorted(circuit.all_qubits())
     try:
         noisy = circuit.with_noise(model)
